@@ -156,3 +156,93 @@ Theorem C03_end_to_end_under_H : forall tree mo enc c r,
   full_spec_for (route_maps tree mo enc c r) c r.
 Proof. exact end_to_end_under_H. Qed.
 Print Assumptions C03_end_to_end_under_H.
+
+(* ------------------------------------------------------------------------------------------
+   WILDCARD HOSTS ("*.example.com") and strict-host (Model/RouteWild.v, additive: on clusters
+   without wildcard hosts route_w false = route_impl, C03_wildcard_conservative).
+   route_w strict c r: a matching rule of the exact host (spec-level matcher) -- else the first
+   matching key of the map's REGEX FILE, in which the code puts every path of a wildcard host
+   (key = one label + quoted suffix # path regex, sorted by key length; Prefix and Begin both
+   become "starts with", case sensitive) -- else the default host, default backend, 404.
+   spec_target_w: the documented matching with the wildcard host between the exact host and the
+   default host, path types meaning what they mean everywhere (Route.path_matches, Route.better).
+   Regular expressions are modelled only in the anchored literal / prefix forms the converter
+   generates for wildcard hosts (paths without regex metacharacters); the regex path type is
+   not modelled. *)
+From HI Require Import Model.RouteWild Proofs.RouteWild Proofs.RouteMapsWild.
+
+(* exact host before wildcard host before default host; the wildcard suffix is unique *)
+Theorem C03_wildcard_host_precedence : forall c r,
+  let matches d := Route.path_matches (d_type d) (d_path d) (rq_path r) = true in
+  ((exists d, In d (effective_decls c) /\ exact_visible (tls_hosts c) r d = true /\ matches d) ->
+     exists d', spec_target_w c r = TDecl d' /\ In d' (effective_decls c) /\
+                exact_visible (tls_hosts c) r d' = true /\ matches d') /\
+  ((forall d, In d (effective_decls c) -> exact_visible (tls_hosts c) r d = true -> ~ matches d) ->
+   (exists d, In d (effective_decls c) /\ wild_visible (tls_hosts c) r d = true /\ matches d) ->
+     exists d', spec_target_w c r = TDecl d' /\ In d' (effective_decls c) /\
+                wild_visible (tls_hosts c) r d' = true /\ matches d').
+Proof. exact wildcard_host_precedence. Qed.
+Print Assumptions C03_wildcard_host_precedence.
+
+Theorem C03_wildcard_suffix_unique : forall h1 h2 reqhost,
+  wild_host_matches h1 reqhost = true -> wild_host_matches h2 reqhost = true ->
+  Route.lower (wild_suffix h1) = Route.lower (wild_suffix h2).
+Proof. exact wildcard_suffix_unique. Qed.
+Print Assumptions C03_wildcard_suffix_unique.
+
+(* the implementation never lets a wildcard host take a request that a rule of the exact host
+   matches (strict-host on or off, no hypothesis) *)
+Theorem C03_exact_host_first : forall strict c r x,
+  Route.best fst (filter (fun x => exact_visible (st_tls (sync_full c)) r (fst x) &&
+                                    Route.path_matches (d_type (fst x)) (d_path (fst x)) (rq_path r))
+                         (paths_w strict c (sync_full c))) = Some x ->
+  route_w strict c r = serve_w (sync_full c) (snd x).
+Proof. exact route_w_exact_first. Qed.
+Print Assumptions C03_exact_host_first.
+
+Theorem C03_wildcard_conservative : forall c r, no_wildcards c -> route_w false c r = route_impl c r.
+Proof. exact route_w_conservative. Qed.
+Print Assumptions C03_wildcard_conservative.
+
+(* C03 with wildcard hosts at full strength is FALSE of the faithful model and of the code: on a
+   wildcard host Exact /app/sub loses to Prefix /app (longer regex); also Prefix /app answers
+   /appx, Prefix /app/ does not answer /app, Begin is case sensitive (harness keys
+   C03/wildcard-regex-length-precedence, -prefix-not-on-element-boundary, -prefix-trailing-slash,
+   -begin-case-sensitive; all replayed on the real pipeline). *)
+Theorem C03_wildcard_full_spec_refuted :
+  exists c r, ports_consistent c /\ ~ full_spec_w_for (route_w false c r) c r.
+Proof. exact route_w_full_spec_refuted. Qed.
+Print Assumptions C03_wildcard_full_spec_refuted.
+
+(* the strongest true variant: whenever the regex file's first matching key belongs to the rule
+   the documented matching selects in the wildcard tier (wild_conform, decidable per request) *)
+Theorem C03_wildcard_full_spec_under_H : forall c r,
+  ports_consistent c -> wild_conform c r = true -> full_spec_w_for (route_w false c r) c r.
+Proof. exact route_w_full_spec_under_H. Qed.
+Print Assumptions C03_wildcard_full_spec_under_H.
+
+(* strict-host on: a request of an existing exact host is answered inside that host, by one of
+   its rules or by the ("/", begin) path SyncConfig adds (default host root, else default backend) *)
+Theorem C03_strict_host_answers_inside : forall c r h,
+  In (Some h) (acquired_hosts c (sync_full c)) ->
+  exact_visible (st_tls (sync_full c)) r (strict_decl (Some h)) = true ->
+  String.prefix "/"%string (rq_path r) = true ->
+  exists x, In x (paths_w true c (sync_full c)) /\ exact_visible (st_tls (sync_full c)) r (fst x) = true /\
+            route_w true c r = serve_w (sync_full c) (snd x).
+Proof. exact strict_host_answers_inside. Qed.
+Print Assumptions C03_strict_host_answers_inside.
+
+(* through the rendered files, regex file included (sorted by file_less Regex of Model/Maps.v,
+   looked up last; map_reg = first matching key): strict-host on or off *)
+Theorem C03_maps_agree_w_under_H : forall tree mo enc strict c r,
+  permitted mo -> plain_in_guard strict c -> request_in_guard r -> ids_ok enc c -> unambiguous_w strict c r ->
+  route_maps_w tree mo enc strict c r = route_w strict c r.
+Proof. exact maps_agree_w_under_H. Qed.
+Print Assumptions C03_maps_agree_w_under_H.
+
+Theorem C03_end_to_end_w_under_H : forall tree mo enc c r,
+  ports_consistent c -> wild_conform c r = true ->
+  permitted mo -> plain_in_guard false c -> request_in_guard r -> ids_ok enc c -> unambiguous_w false c r ->
+  full_spec_w_for (route_maps_w tree mo enc false c r) c r.
+Proof. exact end_to_end_w_under_H. Qed.
+Print Assumptions C03_end_to_end_w_under_H.
